@@ -102,10 +102,28 @@ def special_near(flds, cfg_, lim, fi, axes, pA, pB, lpix, pos):
     return False
 
 
-def phys_pos(cfg_, lat, sc, cn):
+def phys_pos(cfg_, lat, sc, cn, cfgseed=0):
     F = len(sc["mesh"]) - 1
     dxF = gamma.level_dx(cfg_, 3, F)[cn]
-    return cfg_.origin[cn] + sc["pos"] * dxF / 4.0
+    pos = cfg_.origin[cn] + sc["pos"] * dxF / 4.0
+    top = sc["n0"] * sc["unit"]
+    if sc["pos"] < 0 or sc["pos"] > top:
+        # a lattice position OUTSIDE the domain stands for every real position outside it: a quarter of a cell away (the lattice
+        # point itself), or at the edge of the predicate -- the next double beyond the face the header states, a few parts in
+        # 1e-7 / 1e-6 of the domain width or of the face's own magnitude beyond it (a tolerant comparison would let it in)
+        lo = cfg_.q(cfg_.origin[cn])
+        hi = cfg_.q(cfg_.origin[cn] + cfg_.dx0[cn] * lat.dom()[cn])
+        face, sgn = (lo, -1.0) if sc["pos"] < 0 else (hi, 1.0)
+        how = cfgseed % 4
+        if how == 1:
+            pos = float(np.nextafter(face, sgn * np.inf))
+        elif how == 2:
+            pos = face + sgn * 1e-7 * (hi - lo)
+        elif how == 3:
+            pos = face + sgn * 3e-6 * max(abs(face), 1e-3 * (hi - lo))
+        if not (pos < lo or pos > hi):
+            raise core.MachineryError("outside position %r is not outside [%r, %r]" % (pos, lo, hi))
+    return pos
 
 
 def run_scenario(chk, sc, cfgseed, axes, serial, fields, default_pos=False):
@@ -113,7 +131,7 @@ def run_scenario(chk, sc, cfgseed, axes, serial, fields, default_pos=False):
     d, cfg_, lat, flds = build(chk, sc, cfgseed, axes)
     cn, aA, aB = axes
     lim = sc["lim"]
-    pos = phys_pos(cfg_, lat, sc, cn)
+    pos = phys_pos(cfg_, lat, sc, cn, cfgseed)
     before = alpha.tree_digest(d)
     try:
         with shims.pool_shim(shims.Scheduler(default="random", rng=random.Random(cfgseed))), shims.poison(SENTINELS[cfgseed % 3]), core.quiet():
